@@ -136,6 +136,36 @@ static bool trivialWrapper(Function &F, Function *&callee) {
   return calls == 1 && callee;
 }
 
+// a variable-length memcpy / memset / memmove whose destination is derived from a pointer parameter: whether it
+// stays inside the destination can only be decided where the buffer and the length guards are (the caller)
+static bool varLenMemOnParam(Function &F) {
+  for (Instruction &I : instructions(F)) {
+    auto *MI = dyn_cast<MemIntrinsic>(&I);
+    if (!MI || isa<ConstantInt>(MI->getLength())) continue;
+    Value *D = MI->getRawDest()->stripInBoundsOffsets();
+    // at -O0 the parameter lives in an alloca: look through one load of a parameter slot
+    for (int k = 0; k < 6 && D; ++k) {
+      if (isa<Argument>(D)) return true;
+      if (auto *L = dyn_cast<LoadInst>(D)) {
+        if (auto *A = dyn_cast<AllocaInst>(L->getPointerOperand())) {
+          Value *stored = nullptr;
+          for (User *U : A->users())
+            if (auto *S = dyn_cast<StoreInst>(U))
+              if (S->getPointerOperand() == A) stored = S->getValueOperand();
+          if (stored && isa<Argument>(stored)) return true;
+          D = stored ? stored->stripInBoundsOffsets() : nullptr;
+          continue;
+        }
+        return false;
+      }
+      if (auto *G = dyn_cast<GetElementPtrInst>(D)) { D = G->getPointerOperand()->stripInBoundsOffsets(); continue; }
+      if (auto *C = dyn_cast<CastInst>(D)) { D = C->getOperand(0)->stripInBoundsOffsets(); continue; }
+      break;
+    }
+  }
+  return false;
+}
+
 static bool selfRecursive(Function &F) {
   for (Instruction &I : instructions(F))
     if (auto *CB = dyn_cast<CallBase>(&I))
@@ -183,6 +213,8 @@ int main(int argc, char **argv) {
       chosen[&F] = "H helper containing an indirect call";
     else if (onlyWrappers[&F])
       chosen[&F] = "W helper called only from trivial public wrappers";
+    else if (!hasLoop(F) && varLenMemOnParam(F))
+      chosen[&F] = "M loop-free helper with a variable-length memcpy/memset on a parameter";
   }
   std::set<Function *> receivers;
   std::set<std::string> chosenNames;
